@@ -14,13 +14,13 @@ open Gen
 theorem gen_dumpSpec : DumpSpec dumpProg := by
   constructor
   · intro se d fs cp
-    obtain ⟨j, ins⟩ := cp
+    obtain ⟨j, ins, f⟩ := cp
     obtain ⟨c, hc⟩ : ∃ c, fs cb = c := ⟨_, rfl⟩
     have hc' : fs ⟨.ckpt, .base⟩ = c := hc
     cases se <;> cases c <;>
       simp [crashState, dumpProg, dyn, FS.has, runOps, opRun, FS.set, hc', Content.exists?] <;>
       (rcases j with _|_|_|_|_|_|_|_|j <;> cases ins <;>
-        simp [crashOps, opRun, opCrash, FS.set, hc'])
+        simp [crashOps, opRun, opCrash, opPend, settle, FS.set, hc'])
   · intro se d fs
     obtain ⟨c, hc⟩ : ∃ c, fs cb = c := ⟨_, rfl⟩
     have hc' : fs ⟨.ckpt, .base⟩ = c := hc
@@ -31,12 +31,12 @@ theorem gen_dumpSpec : DumpSpec dumpProg := by
 theorem gen_saveSpec : SaveSpec saveWeightsProg := by
   constructor
   · intro fam d fs cp
-    obtain ⟨j, ins⟩ := cp
+    obtain ⟨j, ins, f⟩ := cp
     obtain ⟨c, hc⟩ : ∃ c, fs ⟨fam, .base⟩ = c := ⟨_, rfl⟩
     cases c <;>
       simp [crashState, saveWeightsProg, dyn, FS.has, runOps, opRun, FS.set, hc, Content.exists?] <;>
       (rcases j with _|_|_|_|_|j <;> cases ins <;>
-        simp [crashOps, opRun, opCrash, FS.set, hc] <;> (try split) <;> simp <;>
+        simp [crashOps, opRun, opCrash, opPend, settle, FS.set, hc] <;> (try split) <;> simp <;>
         first | omega | (right; omega))
   · intro fam d fs
     obtain ⟨c, hc⟩ : ∃ c, fs ⟨fam, .base⟩ = c := ⟨_, rfl⟩
@@ -137,12 +137,12 @@ theorem train_keeps_untorn (fs : FS) (w len : Nat) (e : Exc) (cp : Option CrashP
     simp only [protocol, protocolWith]
     rw [show (wb : Path) = ⟨.weights, .base⟩ from rfl, this]; rfl
   | some cp =>
-    obtain ⟨j, ins⟩ := cp
+    obtain ⟨j, ins, f⟩ := cp
     cases ins with
     | some k => simp [Ev.noTornTrain] at hok
     | none =>
       simp only [trainResult, protocol, protocolWith]
-      rcases gen_saveSpec.views .weights ⟨w, 0, len, e⟩ fs ⟨j, none⟩ with ⟨h1, _⟩ | ⟨_, h1, _⟩ | ⟨h1 | ⟨k, hk, _⟩, _⟩
+      rcases gen_saveSpec.views .weights ⟨w, 0, len, e⟩ fs ⟨j, none, f⟩ with ⟨h1, _⟩ | ⟨_, h1, _⟩ | ⟨h1 | ⟨k, hk, _⟩, _⟩
       · rw [show (wb : Path) = ⟨.weights, .base⟩ from rfl, h1]; exact hu
       · rw [show (wb : Path) = ⟨.weights, .base⟩ from rfl, h1]; rfl
       · rw [show (wb : Path) = ⟨.weights, .base⟩ from rfl, h1]; rfl
